@@ -361,5 +361,141 @@ class RealFindLinksRoundTrip(RoundTripStream):
         return fails
 
 
+class EntryCodec(Stream):
+    """one requirer entry through the real writer function (`_process_constraint_req`) and the real loader
+    (`SolutionRepository` on a one-pin file; what `_add_sources` hands to `_create_metadata_req` and what comes back are
+    recorded) against the Lean codec `Entry.render` / `Entry.decode` (theorem `decode_render`); the oracle states the
+    round trip itself: specifier, requested extras and activating extra read back are the ones written"""
+    name = "entry-codec"
+    quick_n = 600
+    thorough_n = 40000
+    batch = 200
+
+    NAMES = ["a", "Alpha.Pkg", "my_lib", "zope.interface", "in0.txt", "reqs/base.txt", "x-y", "B2"]
+    SPECS = ["", "", "<2", ">=1.0", "<2,>=1", "==1.5", "!=1.0,<3", "~=2.1", "==1.*", ">=1.0a1", "<2.0.post1,>0.1"]
+    EXTRAS = ["fast", "x", "p.q", "with-dash", "y2"]
+
+    def setup(self):
+        self.tmp = tempfile.mkdtemp(prefix="rvent")
+
+    def teardown(self):
+        shutil.rmtree(getattr(self, "tmp", ""), ignore_errors=True)
+
+    def generate(self, rng):
+        k = rng.random()
+        act = [] if k < 0.55 else ([rng.choice(self.EXTRAS)] if k < 0.93 else sorted(rng.sample(self.EXTRAS, 2)))
+        name = rng.choice(self.NAMES)
+        if act and ("/" in name or name.endswith(".txt")):
+            name = "Alpha.Pkg"           # input files have no extras
+        return {"name": name, "act": act, "spec": rng.choice(self.SPECS),
+                "extras": sorted(rng.sample(self.EXTRAS, rng.choice([0, 0, 1, 2, 3])))}
+
+    def impl(self, case):
+        import req_compile.repos.solution as S
+        from req_compile.containers import DistInfo
+        from req_compile.dists import DependencyNode, _process_constraint_req
+        from req_compile.utils import parse_requirement
+        from rv.core import digest
+        GL.reset_caches()
+        text = "target" + ("[%s]" % ",".join(case["extras"]) if case["extras"] else "") + case["spec"]
+        if case["act"]:
+            text += " ; " + " or ".join('extra == "%s"' % a for a in case["act"])
+        req = parse_requirement(text)
+        node = DependencyNode(GL.norm(case["name"]), DistInfo(case["name"], None, []))
+        out = {"rendered": _process_constraint_req(req, node)}
+        path = os.path.join(self.tmp, digest(case) + ".txt")
+        with open(path, "w") as f:
+            f.write("target==1.0\n    # via " + out["rendered"] + "\n")
+        seen = []
+        orig = S._create_metadata_req
+
+        def rec(req_, metadata, name, constraints):
+            r = orig(req_, metadata, name, constraints)
+            extra = None
+            if r.marker is not None:
+                for m in r.marker._markers:
+                    if isinstance(m, tuple) and m[0].value == "extra":
+                        extra = m[2].value
+            seen.append({"pkg": name, "spec": str(r.specifier), "extras": sorted(r.extras), "act": extra})
+            return r
+        S._create_metadata_req = rec
+        try:
+            try:
+                S.SolutionRepository(path)
+            except Exception as ex:
+                out["load_error"] = type(ex).__name__
+        finally:
+            S._create_metadata_req = orig
+            os.remove(path)
+        out["read"] = seen
+        GL.reset_caches()
+        return out
+
+    @staticmethod
+    def _canon_extra(a):
+        """packaging reads `extra == "p.q"` as the normalised name `p-q` (PEP 685): that is what the writer is given"""
+        import re
+        return re.sub(r"[-_.]+", "-", a).lower()
+
+    def model_request(self, case, r):
+        return {"op": "entry", "name": case["name"], "act": sorted(self._canon_extra(a) for a in case["act"]), "spec": case["spec"],
+                "extras": case["extras"], "pin_extras": []}
+
+    @staticmethod
+    def _same_spec(a, b):
+        from packaging.specifiers import SpecifierSet
+        return str(SpecifierSet(a)) == str(SpecifierSet(b))
+
+    def compare(self, case, r, m):
+        if m["rendered"] != r["rendered"]:
+            return False
+        d = m["decoded"]
+        if "error" in d:
+            return r.get("load_error") == "ValueError"
+        if "load_error" in r or len(r["read"]) != 1:
+            return False
+        got = r["read"][0]
+        act_ok = got["act"] == d["act"] if len(case["act"]) <= 1 else got["act"] in [self._canon_extra(a) for a in case["act"]]
+        return got["pkg"] == d["pkg"] and act_ok and self._same_spec(got["spec"], d["spec"]) and got["extras"] == sorted(d["extras"])
+
+    def flags(self, case, r):
+        fl = []
+        if case["spec"]:
+            fl.append("specifier")
+        if case["extras"]:
+            fl.append("requested-extras")
+        if case["act"]:
+            fl.append("under-an-extra-of-the-requirer" if len(case["act"]) == 1 else "under-several-extras-of-the-requirer")
+        if "/" in case["name"] or case["name"].endswith(".txt"):
+            fl.append("file-requirer")
+        return fl or ["bare-name"]
+
+    def oracle(self, case, r):
+        if "load_error" in r:
+            return [("C06/entry-not-readable-" + r["load_error"], {"entry": r["rendered"]})]
+        if len(r["read"]) != 1:
+            return [("C06/entry-read-as-%d-requirers" % len(r["read"]), {"entry": r["rendered"], "read": r["read"]})]
+        got = r["read"][0]
+        fails = []
+        if not self._same_spec(got["spec"], case["spec"]):
+            fails.append(("C06/entry-specifier-differs", {"entry": r["rendered"], "written": case["spec"], "read": got["spec"]}))
+        if got["extras"] != sorted(case["extras"]):
+            fails.append(("C06/entry-extras-differ", {"entry": r["rendered"], "written": case["extras"], "read": got["extras"]}))
+        acts = [self._canon_extra(a) for a in case["act"]]
+        if len(acts) <= 1 and got["act"] != (acts[0] if acts else None):
+            fails.append(("C06/entry-activating-extra-differs", {"entry": r["rendered"], "written": case["act"], "read": got["act"]}))
+        if len(acts) > 1 and got["act"] not in acts:
+            fails.append(("C06/entry-activating-extra-differs", {"entry": r["rendered"], "written": case["act"], "read": got["act"]}))
+        return fails
+
+    def shrink(self, case):
+        if case["extras"]:
+            yield dict(case, extras=case["extras"][1:])
+        if case["act"]:
+            yield dict(case, act=case["act"][1:])
+        if case["spec"]:
+            yield dict(case, spec="")
+
+
 def streams():
-    return [RoundTripStream(), WriterStream(), RealFindLinksRoundTrip()]
+    return [RoundTripStream(), WriterStream(), RealFindLinksRoundTrip(), EntryCodec()]
